@@ -1,5 +1,6 @@
 import HapModel.Drv.C01
 import HapModel.Drv.C03
+import HapModel.Drv.C04
 import HapModel.Drv.C05
 import HapModel.Drv.C12
 import HapModel.Drv.C13
@@ -26,6 +27,7 @@ def dispatch1 (op : String) (j : Json) : R Json :=
   | "clump" => hClump j
   | "validate" => hValidate j
   | "outputVcf" => hOutputVcf j
+  | "transform" => hTransform j
   | _ => throw s!"unknown op {op}"
 
 /-- {"op":"batch","reqs":[…]} → {"resps":[…]} -/
